@@ -101,7 +101,7 @@ pub fn run(tier: &str) -> i32 {
     {
         let units: Vec<Proto> = Proto::ALL.to_vec();
         let res = par_units(&units, |p| {
-            let lens = if quick { domains::MSG_LENGTHS[..21].to_vec() } else { domains::MSG_LENGTHS.to_vec() };
+            let lens = if quick { domains::quick_lengths() } else { domains::MSG_LENGTHS.to_vec() };
             let al = alphabet(*p, lens);
             let mut acc = Acc::default();
             let mut out = Vec::new();
@@ -141,6 +141,60 @@ pub fn run(tier: &str) -> i32 {
             emitted.extend(o);
         }
         phases.push(json!({"phase": if quick {"full product, reduced alphabet"} else {"full product, lengths <= 4097"}, "executions": n}));
+    }
+
+    // phase 3: tokens made by the generic and batteries-included builders (scripted nonce), compared with the
+    // reference for the payload the builder serialised (read back at the core layer)
+    {
+        let units: Vec<Proto> = Proto::ALL.to_vec();
+        let res = par_units(&units, |p| {
+            let al = reduced(*p);
+            let mut acc = Acc::default();
+            let mut out = Vec::new();
+            for layer in [Layer::Generic, Layer::Prelude] {
+                for fi in 0..al.footers.len() {
+                    for ai in 0..al.assertions.len() {
+                        let seed = if p.is_local() { Some(al.seeds[1].as_slice()) } else { None };
+                        let upper = IssueCase::new(*p, layer, &al.keys[0], seed, "builder \u{00e9}", &al.footers[fi], &al.assertions[ai]);
+                        acc.executions += 1;
+                        acc.impl_calls += 2;
+                        let Out::Ok(token) = upper.issue() else { continue };
+                        let Out::Ok(payload) = adapter::core_present(*p, &upper.pk(), &token, upper.footer.as_deref(), upper.assertion.as_deref()) else { continue };
+                        // the equivalent core-layer case: same key, seed, footer, assertion; message = that payload
+                        let core = IssueCase::new(*p, Layer::Core, &al.keys[0], seed, &payload, &al.footers[fi], &al.assertions[ai]);
+                        out.push(Emitted { case: core, key_ref: al.keys[0].secret_for_ref.clone(), token });
+                    }
+                }
+            }
+            (acc, out)
+        });
+        let mut n = 0;
+        for (a, o) in res {
+            n += a.executions;
+            all.merge(a);
+            emitted.extend(o);
+        }
+        phases.push(json!({"phase": "tokens built by GenericBuilder / PasetoBuilder (scripted nonce), compared for the payload they serialised", "executions": n}));
+    }
+
+    // phase 4: core builder used twice / configured in another call order: every token is the specification's
+    {
+        for p in Proto::ALL {
+            let al = reduced(p);
+            let seed_v = if p.is_local() { al.seeds[1].clone() } else { vec![] };
+            let seed = if p.is_local() { Some(seed_v.as_slice()) } else { None };
+            let (f, a) = (Some("footer-one".to_string()), if p.has_assertion() { Some("{\"assertion\":\"one\"}".to_string()) } else { None });
+            let (m1, m2) = ("{\"data\":\"first\"}", "{\"data\":\"second\"}");
+            let twice = adapter::core_issue_twice(p, &al.keys[0].sk, &seed_v, m1, f.as_deref(), a.as_deref());
+            let orders = adapter::core_issue_orders(p, &al.keys[0].sk, &seed_v, m1, m2, f.as_deref(), a.as_deref());
+            for (t, m) in twice.iter().zip([m1, m1]).chain(orders.iter().zip([m1, m2])) {
+                all.executions += 1;
+                if let Out::Ok(token) = t {
+                    emitted.push(Emitted { case: IssueCase::new(p, Layer::Core, &al.keys[0], seed, m, &f, &a), key_ref: al.keys[0].secret_for_ref.clone(), token: token.clone() });
+                }
+            }
+        }
+        phases.push(json!({"phase": "core builder reused / other setter orders", "executions": 32}));
     }
 
     // hand the cases to R1
